@@ -370,3 +370,37 @@ def declare_c38(E):
                ghosts={"ptype": "int", "seqno": "int", "got_message": "bool", "sent_count": "int", "send_failed": "bool", "handler_calls": "int"},
                ensures={},
                raises={"SSHException": "True", "EOFError": "True", "OSError": "True"})
+
+
+# ---------------------------------------------------------------------------------------------------------- C11
+def declare_c11(E):
+    """_send_user_message: a connection-layer message goes out only while 'clear to send' is set, checked and used under
+    clear_to_send_lock (the lock under which _send_kex_init / _negotiate_keys clear it)"""
+    from pyvc import specfuns
+    from pyvc.values import VBool
+
+    @specfuns.register("event_is_set")
+    def _event_is_set(I, args, fr):
+        ev = args[0]
+        k = ("event", ev.t.get_id() if ev.t is not None else id(ev))
+        if k not in I.st.ghost:
+            I.st.ghost[k] = VBool(I.st.fresh_bool("event_set"))
+        return I.st.ghost[k]
+    from contracts import message, specs
+    message.declare(E)
+    E.declare_class("paramiko.transport.Transport", {
+        "active": "bool", "clear_to_send": "opaque:Event", "clear_to_send_lock": "opaque:Lock", "clear_to_send_timeout": "float"})
+    E.declare_ghost(user_msgs_sent="int")
+    E.contract(T + "_send_message", params={"data": "obj:Message"}, returns="none",
+               requires={"clear_to_send_is_set_and_its_lock_is_held": "held(self.clear_to_send_lock) and event_is_set(self.clear_to_send)"},
+               ghost={"user_msgs_sent": "ghost('user_msgs_sent') + 1"},
+               raises={"EOFError": "True", "OSError": "True", "SSHException": "True"}, modifies=[])
+    E.contract(T + "_send_user_message", params={"data": "obj:Message"},
+               ensures={"sent_at_most_once": "ghost('user_msgs_sent') <= old(ghost('user_msgs_sent')) + 1",
+                        "lock_released": "not held(self.clear_to_send_lock)"},
+               loops={0: dict(inv=["not held(self.clear_to_send_lock)", "ghost('user_msgs_sent') == old(ghost('user_msgs_sent'))"],
+                              havoc_fields=["self.active"], vars={})},
+               returns="none",
+               raises={"SSHException": {"when": "True", "ensures": ["not held(self.clear_to_send_lock)"]},
+                       "EOFError": {"when": "True", "ensures": ["not held(self.clear_to_send_lock)"]},
+                       "OSError": {"when": "True", "ensures": ["not held(self.clear_to_send_lock)"]}})
